@@ -256,22 +256,25 @@ func (m *MmsTables) tableFiles(name string, order bool) *TSSPFiles {
 	return mmsTbls[name]
 }
 
-func (m *MmsTables) removeFile(f TSSPFile) {
-	if f.Inuse() {
-		if err := f.Rename(f.Path() + tmpFileSuffix); err != nil {
-			log.Error("failed to rename file", zap.String("path", f.Path()), zap.Error(err))
-			return
-		}
-		nodeTableStoreGC.Add(f)
-		return
+// removeFile retires a merged out-of-order file. It is parked first (renamed with the temporary suffix): from then on a
+// restart ignores the file whatever happens to the removal itself. false means the file could not be parked: it is
+// untouched and must stay in the list.
+func (m *MmsTables) removeFile(f TSSPFile) bool {
+	if err := f.Rename(f.Path() + tmpFileSuffix); err != nil {
+		log.Error("failed to rename file", zap.String("path", f.Path()), zap.Error(err))
+		return false
 	}
 
-	err := f.Remove()
-	if err != nil {
+	if f.Inuse() {
+		nodeTableStoreGC.Add(f)
+		return true
+	}
+
+	if err := f.Remove(); err != nil {
 		nodeTableStoreGC.Add(f)
 		log.Error("failed to remove file", zap.String("path", f.Path()), zap.Error(err))
-		return
 	}
+	return true
 }
 
 func (m *MmsTables) matchOrderFiles(ctx *MergeContext) {
@@ -314,9 +317,14 @@ func (m *MmsTables) deleteUnorderedFiles(mst string, files []TSSPFile) {
 		tfs.lock.Lock()
 		defer tfs.lock.Unlock()
 
+		// oldest first, and never past a file that could not be retired: the inputs that stay (in the list and on disk)
+		// must be the newest ones - merged again later they change nothing, an older input without the newer ones would
+		// bring back overwritten rows after a restart
 		for _, f := range files {
+			if !m.removeFile(f) {
+				break
+			}
 			tfs.deleteFile(f)
-			m.removeFile(f)
 		}
 		if tfs.Len() > 0 {
 			noFiles = false
